@@ -362,22 +362,42 @@ def check_chunks(ctx, prog, m):
 
 
 def check_numbers(ctx, prog):
+    """Every integer conversion routine applied to the number buffer runs only for literals short enough for its result type
+    (9 characters for the 32-bit routines, 18 for the 64-bit ones); decided by evaluating the guards of the call with the
+    buffer length bound to 0..40."""
+    import bounded
     f = fn1(prog, 'asl::XdlParser::parse')
     g = q.Guarded(f)
     n = 0
+    INT32 = ('myatoi', 'myatoiz', 'atoi')
+    INT64 = ('myatol', 'atol', 'strtol', 'strtoll', 'atoll')
+    FLT = ('atof', 'strtod', 'myatof')
     for e in fn_exprs(f):
-        if e.get('k') == 'call' and (e.get('pq') or '').endswith('XdlParser::new_number') and e.get('a'):
-            conv = [w for w in walk_expr(e['a'][0]) if w.get('k') == 'call' and (w.get('fn') or '').split('::')[-1] in ('atof', 'strtod', 'myatof', 'myatoi', 'myatoiz', 'myatol', 'atoi', 'atol', 'strtol', 'strtoll', 'atoll')]
-            if not conv:
-                continue
-            n += 1
-            name = conv[0]['fn'].split('::')[-1]
-            integral = name not in ('atof', 'strtod', 'myatof')
-            # is this call confined to short digit strings?
-            short = any(kind == 'if' and pol is False and strip(c).get('k') == 'bin' and strip(c).get('op') == '>' and const_val(strip(c)['y']) is not None and const_val(strip(c)['y']) <= 9 and
-                        any(w.get('k') == 'call' and (w.get('pq') or '').endswith('::length') for w in walk_expr(strip(c)['x'])) for c, pol, kind in g.of(e))
-            ctx.evaluations += 1
-            ctx.check((not integral) or short, 'C06.numbers', f['pq'], 'parse:%s only for digit strings of at most 9 characters' % name if integral else 'parse:%s for long / fractional numbers' % name, fwhere(f, e['l']),
-                      'integer conversion confined to <= 9 characters' if integral else 'floating conversion',
-                      'a number literal of unbounded length is converted with the integer routine %s: literals beyond its range wrap to unrelated values instead of the nearest double' % name)
-    ctx.floor('C06.numbers conversions', n, 4)
+        if e.get('k') != 'call' or (e.get('fn') or '').split('::')[-1] not in INT32 + INT64 + FLT:
+            continue
+        n += 1
+        name = e['fn'].split('::')[-1]
+        if name in FLT:
+            ctx.ok('C06.numbers', f['pq'], 'parse:%s for long / fractional numbers' % name, fwhere(f, e['l']), 'floating conversion')
+            continue
+        limit = 9 if name in INT32 else 18
+        role = 'parse:%s only for digit strings of at most %d characters' % (name, limit)
+        lens = set(pe(w) for c, pol, kind in g.of(e) if isinstance(c, dict) for w in walk_expr(q.expand(f, c, bools_only=True)) if w.get('k') == 'call' and (w.get('pq') or '').endswith('::length'))
+        if len(lens) > 1:
+            ctx.undecided('C06.numbers', f['pq'], role, fwhere(f, e['l']), 'guards consult several lengths: %s' % sorted(lens))
+            continue
+        worst = None
+        if lens:
+            lt = list(lens)[0]
+            rel = lambda c: any(w.get('k') == 'call' and pe(w) == lt for w in walk_expr(q.expand(f, c, bools_only=True)))
+            for L in range(0, 41):
+                r = bounded.admitted3(bounded.Bound(prog, f, {}, {lt: L}), g.of(e), g, relevant=rel)
+                ctx.evaluations += 1
+                if r is not False:
+                    worst = L
+        else:
+            worst = 40
+        ctx.check(worst is not None and worst <= limit, 'C06.numbers', f['pq'], role, fwhere(f, e['l']), 'integer conversion confined to <= %s characters' % worst,
+                  'a number literal of %s characters is converted with the integer routine %s, whose result type only holds every literal of up to %d: longer literals wrap to unrelated values instead of the nearest double'
+                  % ('unbounded length' if worst is None or worst >= 40 else worst, name, limit))
+    ctx.floor('C06.numbers conversions', n, 3)
